@@ -14,7 +14,7 @@ rsync -a --exclude build/corr --exclude build/replay --exclude .git /verif/ "$VF
 mkdir -p "$VF/build/corr" "$VF/build/replay" "$VF/build/logs"
 rc=0
 for P in "$@"; do
-  ( cd "$VF" && VERIF_REPO="$WT" timeout 1500 ./check "$P" --tier quick 2>&1 | grep -E "^(VIOLATION|OK|KNOWN-FINDING|BROKEN)" ) 
+  ( cd "$VF" && VERIF_REPO="$WT" timeout 3000 ./check "$P" --tier quick 2>&1 | grep -E "^(VIOLATION|OK|KNOWN-FINDING|BROKEN)" ) 
   for f in "$VF"/build/replay/${P}_*.json; do [ -f "$f" ] && { echo "--- replay $f"; head -c 1500 "$f"; echo; }; done
 done
 git -C /repo worktree remove --force "$WT"
